@@ -149,7 +149,7 @@ def run(run):
     quick = run.tier == 'quick'; dl = run.deadline
     nopt = lambda names: 1 + len(names) + 4 * len(names)
     jobs = [(0, NAMES, dl), (1, NAMES, dl)] + [(2, NAMES, dl, k) for k in range(nopt(NAMES))] + [(3, ['abs', 'f'], dl, k) for k in range(nopt(['abs', 'f']))]
-    jobs += [(1, NAMES, dl, None, True), (2, ['abs', 'f'], dl, None, True)]          # the call as the right-hand side of a pipe / dot with a null left side
+    jobs += [(1, NAMES, dl, None, True)] + [(2, ['abs', 'f'], dl, k, True) for k in range(nopt(['abs', 'f']))]          # the call as the right-hand side of a pipe / dot with a null left side
     if not quick: jobs += [(3, NAMES, dl, k) for k in range(nopt(NAMES))] + [(4, ['abs', 'f'], dl, k) for k in range(nopt(['abs', 'f']))] + [(5, ['f'], dl, k) for k in range(nopt(['f']))]
     run.bounds = {'operation sequences': 'every sequence of <= 2 operations over {register(name, f), deregister(name), register_builtin_functions} with names {abs, length, f, g} and four recording custom functions '
                                          '(two bare closures, a CustomFunction with signature [number], one with signature [string] + variadic number); length 3 over names {abs, f}' + ('' if quick else '; length 3 over all names, 4 over {abs, f}, 5 over {f}'),
